@@ -388,7 +388,8 @@ Inductive answer :=
 
 Inductive query := QCount | QPaths | QOrdered | QInstance (v : list Z) | QInfo | QModels (cls : option nat) (izd : bool)
                  | QUnit (quarters : list Z)      (* instance_from_unit_vector([q/4 ...]) *)
-                 | QAllPaths.
+                 | QAllPaths
+                 | QRaw (k : ckey).               (* the exact return value of one frozen_cache function, in its own order *)
 
 Definition q_count (o : nat) : M nat :=
   c <- call_unique o ;; l <- as_list c ;; ret (List.length l).
@@ -624,6 +625,7 @@ Definition run_query (cfg : config) (o : nat) (q : query) : M answer :=
   | QModels cls izd => l <- q_models o cls izd ;; ret (AItems l)
   | QUnit qs => i <- q_unit cfg o qs ;; ret (AInst i)
   | QAllPaths => q_allpaths o
+  | QRaw k => c <- call_key o k ;; l <- as_list c ;; idf <- gets pid_of ;; ret (AItems (out_items idf l))
   end.
 
 (* ------------------------------------------------------------------ freeze / unfreeze *)
